@@ -57,6 +57,7 @@ import PercevalModel.Lemmas.C12Tri
 import PercevalModel.Lemmas.C12NearDiag
 import PercevalModel.Lemmas.C12Glue
 import PercevalModel.Lemmas.C12Exact
+import PercevalModel.Lemmas.C12Other
 import PercevalModel.Num.GQ
 import Mathlib.LinearAlgebra.Matrix.Notation
 import Mathlib.LinearAlgebra.Matrix.Block
@@ -1194,5 +1195,61 @@ example : ∃ cfg : Cfg ℂ, ∀ x, cfg.small x = true → x = 0 := by
 
 /-- non-vacuity: the closed-form solvers answer every cell, the all-zero one included -/
 example : (mziSolver 0 0).isSome = true ∧ (bsPsSolver 0 0).isSome = true := ⟨rfl, rfl⟩
+
+end PM.C12
+
+
+/-! ### which targets the NON-universal blocks can null (`Model/C12Other.lean`, `Lemmas/C12Other.lean`)
+
+`Circuit.decomposition` accepts any two-mode block.  For two of the blocks the check exercises, the set of pairs
+`(a, b) = (u[n,j], u[n+1,j])` whose equation has a root is characterised exactly: a cell outside that set cannot be
+solved by ANY parameter value, so `decompose_triangle` answers `None` for mathematical reasons (for these blocks a
+`None` is not a failure of the minimiser), and a returned circuit has passed through nullable cells only. -/
+
+namespace PM.C12
+
+/-- the matrix the equation of `BS(theta)` alone is built from is the inverse of the block -/
+theorem bs_alone_equation_uses_inverse (θ : ℝ) : bsInvC θ * bsC θ = 1 := bsInvC_mul_bsC θ
+
+/-- `BS(theta)` alone (one free parameter): the cell's equation has a root iff `Re(a·conj b) = 0` — the two entries
+are a quarter turn apart (or one of them is 0).  Root: `theta = π` if `b = 0`, else `2·arctan(Im(a·conj b)/|b|²)`. -/
+theorem bs_alone_nullable_iff (a b : ℂ) :
+    (∃ θ : ℝ, nullEq (bsInvC θ) a b = 0) ↔ (a * (starRingEnd ℂ) b).re = 0 := bs_nullable_iff' a b
+
+/-- `catalog['mzi phase first']` as built (`PS(φ_a)`, `BS`, `PS(φ_b)`, `BS`; phase shifters on mode 0) has the closed
+form `mziFirstMat`, and the matrix the equation is built from is its inverse -/
+theorem mzi_phase_first_equation_uses_inverse (φa φb : ℝ) :
+    mziFirstC φa φb =
+        mziFirstMat Complex.I (1 / 2) (Complex.exp (φa * Complex.I)) (Complex.exp (φb * Complex.I)) ∧
+      mziFirstInvC φa φb * mziFirstC φa φb = 1 :=
+  ⟨mziFirstC_eq_mziFirstMat φa φb, mziFirstInvC_mul_mziFirstC φa φb⟩
+
+/-- in the equation of the phase-first MZI the outer phase `phi_a` is a common unit factor: whether a value of
+`phi_b` nulls the cell does not depend on it -/
+theorem mzi_phase_first_outer_phase_irrelevant (φa φa' φb : ℝ) (a b : ℂ) :
+    nullEq (mziFirstInvC φa φb) a b = 0 ↔ nullEq (mziFirstInvC φa' φb) a b = 0 := by
+  rw [nullEq_mziFirstInvC_iff, nullEq_mziFirstInvC_iff]
+
+/-- `catalog['mzi phase first']` (two free phases, but only one of them acts): the cell's equation has a root iff
+`Im(a·conj b) = 0` — the two entries have the same or opposite phase (or one of them is 0).  Root:
+`phi_b = arg(a − i·b) − arg(a + i·b)`, any `phi_a`. -/
+theorem mzi_phase_first_nullable_iff (a b : ℂ) :
+    (∃ φa φb : ℝ, nullEq (mziFirstInvC φa φb) a b = 0) ↔ (a * (starRingEnd ℂ) b).im = 0 :=
+  mziFirst_nullable_iff' a b
+
+/-- neither block is universal for the triangular scheme: witnesses of cells no parameter value can null
+(`(1, 1)` for `BS(theta)`, `(1, i)` for the phase-first MZI) — while the two universal blocks null them
+(`bsPs_exists_nulling_parameters`, `mzi_exists_nulling_parameters`) -/
+theorem non_universal_blocks_have_unsolvable_cells :
+    (¬ ∃ θ : ℝ, nullEq (bsInvC θ) 1 1 = 0) ∧ (¬ ∃ φa φb : ℝ, nullEq (mziFirstInvC φa φb) 1 Complex.I = 0) := by
+  constructor
+  · rw [bs_alone_nullable_iff]; simp
+  · rw [mzi_phase_first_nullable_iff]; simp
+
+/-- non-vacuity: nullable cells exist for both (`(i, 1)` for `BS(theta)`, `(1, 1)` for the phase-first MZI) -/
+example : (∃ θ : ℝ, nullEq (bsInvC θ) Complex.I 1 = 0) ∧ (∃ φa φb : ℝ, nullEq (mziFirstInvC φa φb) 1 1 = 0) := by
+  constructor
+  · rw [bs_alone_nullable_iff]; simp
+  · rw [mzi_phase_first_nullable_iff]; simp
 
 end PM.C12
